@@ -247,6 +247,10 @@ STAGES = {
                 POLICIES='{"mandatory", "opportunistic", "none"}', STARTTLSADV='BOOLEAN', HOSTKINDS='{"localhost", "other"}', HANDSHAKES='{"ok", "untrusted"}',
                 AUTHTYPES='{"NOAUTH", "PLAIN", "LOGIN", "AUTODISCOVER"}',
                 AUTHLISTS='{{"PLAIN", "LOGIN"}, {"PLAIN", "LOGIN", "CRAM-MD5"}, {"PLAIN", "LOGIN", "CRAM-MD5", "XOAUTH2", "SCRAM-SHA-1", "SCRAM-SHA-256", "SCRAM-SHA-1-PLUS", "SCRAM-SHA-256-PLUS"}}')),
+            # a tls.Config object without server name shared with another Client (for another host) of the application
+            ('shared-tls-config', 'Session', cfg(OP='"DialAndSend"', N='1', MAXR='1', BUDGET='0', CAPSETS='{{}}', VARIANTS='{"sharedcfg"}',
+                POLICIES='{"mandatory", "opportunistic"}', STARTTLSADV='{TRUE}', HANDSHAKES='{"wrongname", "untrusted"}',   # (a config that names no server fails every handshake today)
+                AUTHTYPES='{"NOAUTH", "PLAIN"}', AUTHLISTS='{{"PLAIN", "LOGIN"}}')),
             # implicit TLS switched on and off again before the dial (SetSSL(true), SetSSL(false)): the policy decides
             ('ssl-flag-set-and-cleared', 'Session', cfg(OP='"DialAndSend"', N='1', MAXR='1', BUDGET='0', CAPSETS='{{}}', VARIANTS='{"ssltoggle"}',
                 POLICIES='{"mandatory", "opportunistic", "none"}', STARTTLSADV='BOOLEAN', HANDSHAKES='{"ok", "untrusted"}',
